@@ -98,9 +98,9 @@ def gen_program(rng, depth=3):
             src = rng.choice(["3ɾ", "4ʁ", "⟨3|1|2⟩", "⟨⟨1|2⟩|⟨3⟩⟩", "2 ", "n"])
             return src + rng.choice("ƛ'µ") + seq(d - 1, True, True, 0, 3) + ";"
         if k == 5:      # lambda with an explicit element
-            el = rng.choice(["M", "F", "ṡ", "R"])
+            el = rng.choice(["M", "F", "ṡ"])
             src = rng.choice(["3ɾ", "⟨3|1|2⟩", "⟨5|4⟩"])
-            ar = "2|" if el == "R" else rng.choice(["", "1|"])
+            ar = rng.choice(["", "1|"])
             return src + "λ" + ar + seq(d - 1, True, True, 0, 3) + ";" + el
         if k == 6:      # named function: definition only at top level, call anywhere after it
             if fn:
@@ -297,6 +297,26 @@ FIXED = [
 ]
 
 
+def _both(inp):
+    """one real run against both models: (difference from the reference semantics, difference from the Python semantics)"""
+    prog, flags, inputs = inp["prog"], inp.get("flags", ""), inp.get("inputs", [])
+    mref, mpy = [parse_model(a) for a in model_answers([req_line("ref", prog, flags, inputs), req_line("py", prog, flags, inputs)])]
+    if mref[0] == "skip" and mpy[0] == "skip":
+        return None, None, "skip"
+    real = real_run(prog, flags, inputs)
+    return (compare(real, mref), compare(real, mpy), real[0])
+
+
+def _both_chunk(items):
+    out = []
+    for inp in items:
+        try:
+            out.append((inp,) + _both(inp))
+        except Timeout:
+            out.append((inp, None, None, "timeout"))
+    return out
+
+
 def run(ctx, widen=False):
     thorough = ctx.tier == "thorough" or widen
     rng = ctx.rng
@@ -304,25 +324,46 @@ def run(ctx, widen=False):
     n = 40000 if thorough else 2500
     for _ in range(n):
         cases.append({"prog": gen_program(rng, rng.randint(1, 4)), "flags": rng.choice(FLAGS), "inputs": gen_inputs(rng)})
-    # the model's answers in one batch (reference semantics and Python semantics of the model's transpiled tree)
-    ref_lines = [req_line("ref", c["prog"], c["flags"], c["inputs"]) for c in cases]
-    model_answers(ref_lines)
-    inside = 0
-    for c, l in zip(cases, ref_lines):
-        m = parse_model(_CACHE.get(l, "ERR"))
-        if m[0] == "skip":
-            ctx.bump("outside-core:" + m[1][:40])
-        else:
-            inside += 1
-            ctx.bump("ref:" + m[0])
-    ctx.bump("inside-core", inside)
-    core_cases = [c for c, l in zip(cases, ref_lines) if parse_model(_CACHE.get(l, "ERR"))[0] != "skip"]
-    ctx.check_many("ref", core_cases)
-    for c in core_cases[len(FIXED):len(FIXED) + 6]:
+    # the model's answers in one batch: reference semantics of the tree, Python semantics of the model's transpiled tree
+    lines = []
+    for c in cases:
+        lines.append(req_line("ref", c["prog"], c["flags"], c["inputs"]))
+        lines.append(req_line("py", c["prog"], c["flags"], c["inputs"]))
+    model_answers(lines)
+    inside = []
+    for c in cases:
+        mr = parse_model(_CACHE.get(req_line("ref", c["prog"], c["flags"], c["inputs"]), "ERR"))
+        mp_ = parse_model(_CACHE.get(req_line("py", c["prog"], c["flags"], c["inputs"]), "ERR"))
+        ctx.bump("ref:" + (mr[0] if mr[0] != "skip" else "outside:" + mr[1][:44]))
+        ctx.bump("py:" + (mp_[0] if mp_[0] != "skip" else "outside:" + mp_[1][:44]))
+        if mr[0] != "skip" and mp_[0] != "skip" and mr != mp_:
+            ctx.disagree("py-vs-ref", c, mp_, mr)          # the two Lean interpreters themselves (what the theorem is about)
+        if mr[0] != "skip" or mp_[0] != "skip":
+            inside.append(c)
+        for ch in c["prog"]:
+            if ch in "[({λƛ'µ⟨@v&~ßƒɖ₌₍⁽‡≬Xx":
+                ctx.bump("struct:" + ch)
+    ctx.bump("inside-core", len(inside))
+    import multiprocessing as mp
+    procs = 16 if thorough else 8
+    chunks = [inside[i::procs * 8] for i in range(procs * 8)]
+    with mp.get_context("fork").Pool(procs) as pool:
+        for res in pool.imap_unordered(_both_chunk, chunks):
+            for inp, dref, dpy, status in res:
+                ctx.count("oracle:ref")
+                ctx.count("corr:py")
+                ctx.bump("real:" + status)
+                if status in ("ok", "raise"):
+                    ctx.nontriv(("ref", json.dumps(inp, sort_keys=True, ensure_ascii=False)))
+                if dref:
+                    ctx.violation("ref", inp, dref)
+                if dpy:
+                    ctx.disagree("py", inp, dpy, "")
+    for c in inside[len(FIXED):len(FIXED) + 6]:
         ctx.sample(c)
     ctx.sample({"prog": "0[1|0|2|1|3|4]", "flags": "W", "stack": "[3]"})
     # the transpiler model against the real transpiler on the same programs
-    aststream.run_stream(ctx, [c["prog"] for c in cases])
+    aststream.run_stream(ctx, [c["prog"] for c in cases], dict_compress=True)
     elem_stream(ctx, 4000 if thorough else 600)
 
 
